@@ -20,7 +20,7 @@ void run(const std::string & tn)
   const double Texp = F ? 1e-3 : 1e-9;  // Ad(exp a) inherits C02's bound on exp
   const double epsS = std::numeric_limits<S>::epsilon();
 
-  auto Ts = tangents<R, S>(AlphaOpts::full());
+  auto Ts = tangents<R, S>(AlphaOpts::dense());
   mc::explore("C03/tangent/" + tn, Ts.size(), [&](mc::Case & c) {
     const auto & t = Ts[c.idx];
     const auto a   = make<G>(t);
@@ -54,7 +54,7 @@ void run(const std::string & tn)
     c.judge("Ad(exp a)=expm(ad a)", ref::relerr1<D, D>(g.Ad(), Ade), Texp);
   });
 
-  auto Es = elements<R, S>(AlphaOpts::full().upto(2 * PI + 1e-3));
+  auto Es = elements<R, S>(AlphaOpts::dense().upto(2 * PI + 1e-3));
   mc::explore("C03/Ad/" + tn, Es.size(), [&](mc::Case & c) {
     const G g = make<G>(Es[c.idx]);
     c.desc    = [&] { return "g=" + vstr(g.coeffs()); };
